@@ -5,6 +5,7 @@ import (
 	"fmt"
 	"os"
 	"strings"
+	"sync"
 
 	e2types "github.com/wealdtech/go-eth2-types/v2"
 )
@@ -46,22 +47,36 @@ func sigcheck() {
 	sc.Buffer(make([]byte, 1<<20), 1<<26)
 	out := bufio.NewWriter(os.Stdout)
 	defer out.Flush()
+	var lines []string
 	for sc.Scan() {
-		f := strings.Fields(sc.Text())
-		if len(f) != 3 {
-			fmt.Fprintln(out, "bad")
-			continue
-		}
-		pk, err1 := e2types.BLSPublicKeyFromBytes(unhex(f[0]))
-		sig, err2 := e2types.BLSSignatureFromBytes(unhex(f[2]))
-		if err1 != nil || err2 != nil {
-			fmt.Fprintln(out, "bad")
-			continue
-		}
-		if sig.Verify(unhex(f[1]), pk) {
-			fmt.Fprintln(out, "ok")
-		} else {
-			fmt.Fprintln(out, "bad")
-		}
+		lines = append(lines, sc.Text())
+	}
+	res := make([]string, len(lines))
+	var wg sync.WaitGroup
+	sem := make(chan struct{}, 16)
+	for i := range lines {
+		wg.Add(1)
+		sem <- struct{}{}
+		go func(i int) {
+			defer wg.Done()
+			defer func() { <-sem }()
+			res[i] = "bad"
+			f := strings.Fields(lines[i])
+			if len(f) != 3 {
+				return
+			}
+			pk, err1 := e2types.BLSPublicKeyFromBytes(unhex(f[0]))
+			sig, err2 := e2types.BLSSignatureFromBytes(unhex(f[2]))
+			if err1 != nil || err2 != nil {
+				return
+			}
+			if sig.Verify(unhex(f[1]), pk) {
+				res[i] = "ok"
+			}
+		}(i)
+	}
+	wg.Wait()
+	for _, r := range res {
+		fmt.Fprintln(out, r)
 	}
 }
